@@ -39,7 +39,7 @@ def jobs(tier, seed):
     for cmd in trxc.CMDS:
         out.append(('trxcon.accepts.%s' % cmd[4:].replace(' ', '_'), 'c_ctrl_ok', dict(cmd=cmd, status=0, extra='dbm' if 'MEASURE' in cmd else '')))
     out.append(('trxcon.rejects.POWERON.-1', 'c_ctrl_ok', dict(cmd='CMD POWERON', status=-1, extra='')))
-    for band, n in ((900, 1), (900, 16), (900, 63), (900, 64), (1800, 1), (1800, 62), (1800, 63), (1800, 64)):
+    for band, n in ((900, 1), (900, 16), (900, 63), (900, 64), (850, 64), (1800, 1), (1800, 62), (1800, 63), (1800, 64), (1900, 1), (1900, 40), (1900, 62)):
         out.append(('trxcon.composes.SETFH.band%d.n=%d' % (band, n), 'c_setfh_compose', dict(band=band, n=n)))
     out.append(('setfh.long.16pairs', 'h_setfh_long', dict(npairs=16, lo=100000, hi=2000000 if False else 999999)))
     return out
